@@ -1,27 +1,36 @@
 (* templates: common ta_io *)
-(* C05: input  red <T A> ||| R <T> I <T> *)
+(* C05: input  red <T A> ||| R <T> I <T>      or  red2 <T A> <T A2> ||| R <T> I <T> R <T> I <T>  (second Reduce on the same object after in-place extension to A2) *)
 open Ex_c05
 open Common_c05
 open Ta_io_c05
+let judge pre a r i fails drift =
+  let fail g = fails := (pre ^ g) :: !fails in
+  if not (equiv_dec r a) then fail "lang";
+  if int_of_nat (nstates r) > int_of_nat (nstates a) then fail "states_grow";
+  if int_of_nat (nrules r) > int_of_nat (nrules a) then fail "rules_grow";
+  if not (onto_gate a r) then fail "onto";
+  if not (ta_same a i) then fail "operand_changed";
+  let d = down_sim_rel a in
+  let rep = recover_rep d r in
+  if not (is_down_simb a d && valid_repb a d rep) then drift := (pre ^ "rep") :: !drift
+  else if not (ta_same r (reduce_with rep a)) then drift := (pre ^ "struct") :: !drift
+
 let () = each_line (fun l ->
   let (c, o) = split_bar l in
-  let t = toks_of_line c in expect t "red"; let a = read_ta t in
+  let t = toks_of_line c in let kind = word t in let a = read_ta t in
+  let a2 = if kind = "red2" then Some (read_ta t) else None in
   let t = toks_of_line o in
   match peek t with
   | Some "R" ->
     expect t "R"; let r = read_ta t in expect t "I"; let i = read_ta t in
     let fails = ref [] and drift = ref [] in
-    if not (equiv_dec r a) then fails := "lang" :: !fails;
-    if int_of_nat (nstates r) > int_of_nat (nstates a) then fails := "states_grow" :: !fails;
-    if int_of_nat (nrules r) > int_of_nat (nrules a) then fails := "rules_grow" :: !fails;
-    if not (onto_gate a r) then fails := "onto" :: !fails;
-    if not (ta_same a i) then fails := "operand_changed" :: !fails;
-    let d = down_sim_rel a in
-    let rep = recover_rep d r in
-    if not (is_down_simb a d && valid_repb a d rep) then drift := "rep" :: !drift
-    else if not (ta_same r (reduce_with rep a)) then drift := "struct" :: !drift;
+    judge "" a r i fails drift;
+    (match a2 with
+     | None -> ()
+     | Some a2 -> expect t "R"; let r2 = read_ta t in expect t "I"; let i2 = read_ta t in judge "again_" a2 r2 i2 fails drift);
     (if !fails = [] then "OK" else "FAIL " ^ String.concat "," (List.rev !fails))
     ^ (if !drift = [] then "" else " DRIFT " ^ String.concat "," (List.rev !drift))
     ^ (if is_empty a then " empty" else " nonempty")
     ^ (if int_of_nat (nstates r) < int_of_nat (nstates a) then " shrunk" else " same")
+    ^ (if a2 <> None then " history" else "")
   | _ -> "FAIL exception " ^ o)
